@@ -161,3 +161,46 @@ def detector_fold(prog, f, values, answers=None, extra_env=None):
     if isinstance(r, tuple) and r and r[0] == "unknown":
         raise Unknown(r[1])
     return r, log, ev
+
+
+def runner_fold(prog, repetitions, flags=None, seed=77):
+    """Fold CommandLineTestRunner::runAllTests against scripted command-line answers and per-repetition results.
+    repetitions: list of (failure count, isFailure) - its length is the repeat count. flags: answers of the argument
+    getters (isReversing, isShuffling, isListingTestGroupNames ...). Returns (return value, event log)."""
+    from cpv.ceval import Evaluator, Unknown
+    flags = dict(flags or {})
+    rt = prog.fn("CommandLineTestRunner::runAllTests")
+    log = []
+    state = {"rep": -1}
+
+    def reg(name):
+        def h(*a_):
+            log.append((name,) + tuple(x for x in a_[1:] if isinstance(x, int)))
+            if name == "runAllTests":
+                state["rep"] += 1
+            return 0
+        return h
+    hooks = {"CommandLineArguments::getRepeatCount": lambda *a_: len(repetitions), "CommandLineArguments::getShuffleSeed": lambda *a_: seed,
+             "CommandLineTestRunner::initializeTestRun": lambda *a_: (log.append(("initialize",)), 0)[1],
+             "TestResult::getFailureCount": lambda *a_: repetitions[max(0, min(state["rep"], len(repetitions) - 1))][0],
+             "TestResult::isFailure": lambda *a_: repetitions[max(0, min(state["rep"], len(repetitions) - 1))][1]}
+    for g in ("isListingTestGroupNames", "isListingTestGroupAndCaseNames", "isListingTestLocations", "isReversing", "isShuffling"):
+        hooks["CommandLineArguments::" + g] = (lambda *a_, g=g: flags.get(g, 0))
+    for m in ("reverseTests", "shuffleTests", "runAllTests", "listTestGroupNames", "listTestGroupAndCaseNames", "listTestLocations"):
+        hooks["TestRegistry::" + m] = reg(m)
+    for m in ("print", "printTestRun"):
+        hooks["TestOutput::" + m] = (lambda *a_: 0)
+    ev = Evaluator(prog, rt, env={"registry_": 11, "arguments_": 22, "output_": 33}, calls=hooks)
+    ev.pass_object = True
+    ev.run_blocks(rt.entry, max_steps=6000)
+    events = []
+    hook_i = 0
+    for nm, args, node in ev.trace:
+        if nm == "construct TestResult":
+            events.append(("new-result",))
+        elif nm.startswith("TestRegistry::") and nm.split("::")[-1] in ("reverseTests", "shuffleTests", "runAllTests", "listTestGroupNames", "listTestGroupAndCaseNames", "listTestLocations"):
+            events.append((nm.split("::")[-1],) + tuple(x for x in (args or [])[1:] if isinstance(x, int)))
+    r = getattr(ev, "ret", None)
+    if isinstance(r, tuple):
+        raise Unknown(str(r))
+    return r, events
